@@ -564,6 +564,7 @@ func runScript(path string) {
 
 func main() {
 	out := flag.String("out", "trace.ndjson", "ndjson trace")
+	statePath := flag.String("statescript", "", "TLC-generated cases of the state-access gas extension (json); runs only these")
 	scriptPath := flag.String("script", "", "TLC-generated call sequences and memory operand cases (json)")
 	scratch := flag.String("scratch", "", "scratch directory for the node's stores")
 	n := flag.Int("runs", 100, "generated runs")
@@ -603,6 +604,17 @@ func main() {
 		if err := os.WriteFile(*jt, b, 0644); err != nil {
 			vutil.Fatalf("write jumptable: %v", err)
 		}
+	}
+	if *statePath != "" {
+		m := 1
+		if common.IsProposal026() {
+			m = common.GasMagnification
+		}
+		st := vutil.NewTrace(*out)
+		runStateScript(*statePath, st, m, common.IsProposal015())
+		st.Close()
+		fmt.Printf("c11state: runs=%d events=%d\n", stats["state_runs"], st.N)
+		return
 	}
 	tr = vutil.NewTrace(*out)
 	rec = eu.NewRecorder(tr, eu.Options{Gas: true, Frames: true, MaxSteps: *maxSteps, MaxFrames: 2200, MaxFaults: 1200})
